@@ -4,6 +4,7 @@ package c2
 
 import (
 	"time"
+	"unsafe"
 
 	"github.com/iDigitalFlame/xmt/com"
 	"github.com/iDigitalFlame/xmt/device"
@@ -19,92 +20,50 @@ func VerifC16State(s *Session) uint32 { return uint32(s.state) }
 // VerifC16ListenerState returns the raw state word of a Listener.
 func VerifC16ListenerState(l *Listener) uint32 { return uint32(l.state) }
 
-func c16ProbePackets(c chan *com.Packet) int {
-	if c == nil {
+// c16Closed reads the `closed` word of the run-time channel header (runtime.hchan: qcount uint,
+// dataqsiz uint, buf unsafe.Pointer, elemsize uint16, [pad], closed uint32 => offset 28 on
+// 64-bit).  Reading it takes nothing out of the buffer and puts nothing in, unlike a probe by
+// receive / send.  VerifC16ProbeSelfTest checks the layout assumption at start-up.
+func c16Closed(p unsafe.Pointer) int {
+	if p == nil {
 		return 0
 	}
-	for i := 0; i < 4096; i++ {
-		select {
-		case p, ok := <-c:
-			if !ok {
-				return 2
-			}
-			// open (or closed with buffered items): keep looking only when the channel
-			// cannot take the item back
-			select {
-			case c <- p:
-				return 1
-			default:
-			}
-		default:
-			return 1
-		}
+	if *(*uint32)(unsafe.Add(p, 2*unsafe.Sizeof(uintptr(0))+unsafe.Sizeof(unsafe.Pointer(nil))+4)) != 0 {
+		return 2
 	}
 	return 1
 }
+func c16ProbePackets(c chan *com.Packet) int { return c16Closed(*(*unsafe.Pointer)(unsafe.Pointer(&c))) }
+func c16ProbeSignal(c chan struct{}) int      { return c16Closed(*(*unsafe.Pointer)(unsafe.Pointer(&c))) }
 
-// c16ProbePacketsClosed is used when the state word says the channel was closed: a closed
-// channel still hands out its buffered items first, so drain and look for ok == false.
-func c16ProbePacketsClosed(c chan *com.Packet) (r int) {
-	if c == nil {
-		return 0
+// VerifC16ProbeSelfTest validates the channel-header probe on channels whose status is known.
+func VerifC16ProbeSelfTest() bool {
+	var (
+		a = make(chan struct{}, 1)
+		b = make(chan *com.Packet, 128)
+		n chan struct{}
+	)
+	a <- struct{}{}
+	b <- &com.Packet{}
+	if c16ProbeSignal(n) != 0 || c16ProbeSignal(a) != 1 || c16ProbePackets(b) != 1 {
+		return false
 	}
-	for i := 0; i < 4096; i++ {
-		select {
-		case _, ok := <-c:
-			if !ok {
-				return 2
-			}
-		default:
-			return 1
-		}
+	close(a)
+	close(b)
+	if c16ProbeSignal(a) != 2 || c16ProbePackets(b) != 2 {
+		return false
 	}
-	return 1
-}
-func c16ProbeSignal(c chan struct{}) int {
-	if c == nil {
-		return 0
+	u := make(chan struct{})
+	if c16ProbeSignal(u) != 1 {
+		return false
 	}
-	select {
-	case _, ok := <-c:
-		if !ok {
-			return 2
-		}
-		select {
-		case c <- struct{}{}:
-		default:
-		}
-		return 1
-	default:
-		return 1
-	}
+	close(u)
+	return c16ProbeSignal(u) == 2
 }
 
-// VerifC16Chans reports send, wake, recv, ch as 0 = nil, 1 = open, 2 = closed.  Call at
-// quiescence only.
+// VerifC16Chans reports send, wake, recv, ch as 0 = nil, 1 = open, 2 = closed.
 func VerifC16Chans(s *Session) [4]int {
-	var r [4]int
-	if s.state.SendClosed() {
-		r[0] = c16ProbePacketsClosed(s.send)
-	} else {
-		r[0] = c16ProbePackets(s.send)
-	}
-	if s.state.WakeClosed() {
-		// a token may still sit in the buffer of a closed channel
-		r[1] = c16ProbeSignal(s.wake)
-		if r[1] == 1 {
-			r[1] = c16ProbeSignal(s.wake)
-		}
-	} else {
-		r[1] = c16ProbeSignal(s.wake)
-	}
-	if s.state.RecvClosed() && !s.state.Closed() {
-		r[2] = c16ProbePacketsClosed(s.recv)
-	} else {
-		r[2] = c16ProbePackets(s.recv)
-	}
-	r[3] = c16ProbeSignal(s.ch)
-	return r
+	return [4]int{c16ProbePackets(s.send), c16ProbeSignal(s.wake), c16ProbePackets(s.recv), c16ProbeSignal(s.ch)}
 }
 
 // VerifC16ReceiveSingle runs the real receiveSingle.
